@@ -198,13 +198,13 @@ Definition ext01 : extobs :=
           (mkRel true true false false false 1 (16378, 9838263505978427529) (16381, 15987178197214944256))
           (mkRel false false true true false 3 (16381, 11068046444225732198) (16381, 15987178197214944256))
           (16380, 9838263505978427938) (16378, 9838263505978427529) (16381, 11068046444225732198) (16381, 15987178197214944256)).
-Definition case01 : case :=
-  Case OAll 4591870180066957722 4599676419421066581
+Definition obs01 : obs :=
     (mkObs (16379, 14757395258967642112) (16381, 12297829382473033728) (16381, 15987178197214944256) (49148, 17216961135462246400) (16378, 9838263505978427529) (16381, 11068046444225732198) (49147, 14757395258967642112) (16380, 9838263505978427938) (16381, 14757395258967642726)
        4591870180066957722 4601477859272014780 13820946776449736157 4584964660638322961 4599075939470750516 4600877379321698714
        true true false false false 1
        (16379, 14757395258967642112) (16381, 12297829382473033728) (16379, 14757395258967642112)
        ext01).
+Definition case01 : case := Case OAll 4591870180066957722 4599676419421066581 obs01.
 Example case01_spec : spec_check case01 = true. Proof. vm_compute. reflexivity. Qed.
 Example case01_model : model_check case01 = true. Proof. vm_compute. reflexivity. Qed.
 Example ex_spec_sound_add :
@@ -242,7 +242,7 @@ Proof. vm_compute. auto. Qed.
 (** what [c18_spec_check_sound] gives for the accepted case on the pair (m, n_m), m = x*y + x: the observed
     relations are those of the model on the two observed raws, which are different values *)
 Example in_m_nm : In ((16380, 9838263505978427938), (16380, 9838263505978427392), x_m_nm ext01)
-                     (ext_pairs (let '(Case _ _ _ o) := case01 in o)).
+                     (ext_pairs obs01).
 Proof. left. reflexivity. Qed.
 Example ex_spec_sound_ext :
   r_eq (x_m_nm ext01) = eq80 (decode80 (16380, 9838263505978427938)) (decode80 (16380, 9838263505978427392))
@@ -264,14 +264,14 @@ Proof.
   destruct (Hrel _ _ _ in_m_nm) as (_ & _ & _ & _ & _ & _ & _ & _ & Hmm).
   exact (proj1 (proj1 (Hmm nn_m nn_nm))).
 Qed.
-Example in_abs_m : In ((16380, 9838263505978427938), x_am ext01) (ext_abs (let '(Case _ _ _ o) := case01 in o)).
+Example in_abs_m : In ((16380, 9838263505978427938), x_am ext01) (ext_abs obs01).
 Proof. left. reflexivity. Qed.
 Example ex_spec_sound_ext_abs : decode80 (x_am ext01) = SFabs (decode80 (16380, 9838263505978427938)).
 Proof.
   destruct (c18_spec_check_sound OAll _ _ _ case01_spec) as (_ & _ & _ & _ & _ & Hext).
   destruct (Hext eq_refl) as (_ & Habs & _). exact (Habs _ _ in_abs_m).
 Qed.
-Example in_wid_m : In (x_nmad ext01, x_nm ext01) (ext_widened (let '(Case _ _ _ o) := case01 in o)).
+Example in_wid_m : In (x_nmad ext01, x_nm ext01) (ext_widened obs01).
 Proof. left. reflexivity. Qed.
 Example ex_spec_sound_ext_widen : decode80 (x_nm ext01) = widen (narrow (decode80 (16380, 9838263505978427938))).
 Proof.
@@ -288,8 +288,8 @@ Definition ext01_bad : extobs :=
     (x_nm_m e) (x_p_np e) (x_np_p e) (x_q_nq e) (x_nq_q e) (x_s_ns e) (x_ns_s e) (x_m_p e) (x_p_s e) (x_s_q e)
     (x_am e) (x_ap e) (x_aq e) (x_as e).
 Definition with_ext (c : case) (e : extobs) : case :=
-  let '(Case _ a b o) := c in
-  Case OExt a b (mkObs (o_wa o) (o_wb o) (o_add o) (o_sub o) (o_mul o) (o_div o) (o_neg o) (o_mad o) (o_chain o)
+  let o := obs01 in
+  Case OExt 4591870180066957722 4599676419421066581 (mkObs (o_wa o) (o_wb o) (o_add o) (o_sub o) (o_mul o) (o_div o) (o_neg o) (o_mad o) (o_chain o)
                    (o_back o) (o_nadd o) (o_nsub o) (o_nmul o) (o_ndiv o) (o_nchain o)
                    (o_lt o) (o_le o) (o_gt o) (o_ge o) (o_eq o) (o_pcmp o) (o_min o) (o_max o) (o_abs o) e).
 Example case01_ext_ok : spec_check (with_ext case01 ext01) = true /\ model_check (with_ext case01 ext01) = true.
@@ -305,3 +305,43 @@ Example ex_rne_sound :
   round radix2 (FLT_exp (3 - 16384 - 64) 64) ZnearestE (IZR 1 / IZR 3 * bpow radix2 0)
   = F2R (Float radix2 12297829382473034411 (-65)).
 Proof. apply (c18_rne_ok_sound 64 16384 eq_refl eq_refl 1 3 0 _ eq_refl eq_refl rne_third). Qed.
+
+(** ** straight-line programs ([Trace]) *)
+Import ListNotations.
+(** x = 1, y = 3: r2 = x / y, r3 = r2 * r2, r4 = -r3, r5 = f80::from(f64::from(r2)); as printed by the executor *)
+Definition trace01 : case :=
+  Trace 4607182418800017408 4613937818241073152 (16383, 9223372036854775808) (16384, 13835058055282163712)
+    [TS TDiv 0 1 (16381, 12297829382473034411) 4599676419421066581 35;
+     TS TMul 2 2 (16379, 16397105843297379215) 4592670820000712476 90;
+     TS TNeg 3 3 (49147, 16397105843297379215) 13816042856855488284 90;
+     TS TRnd 2 2 (16381, 12297829382473033728) 4599676419421066581 90].
+Example trace01_spec : spec_check trace01 = true. Proof. vm_compute. reflexivity. Qed.
+Example trace01_model : model_check trace01 = true. Proof. vm_compute. reflexivity. Qed.
+(** step 1 (the square of the extended-format value 1/3): operands are the OBSERVED raw of step 0 *)
+Example ex_spec_trace_sound :
+  decode80 (16379, 16397105843297379215)
+  = mul80 (decode80 (16381, 12297829382473034411)) (decode80 (16381, 12297829382473034411))
+  /\ decode64 4592670820000712476 = narrow (decode80 (16379, 16397105843297379215)).
+Proof.
+  destruct (c18_spec_trace_sound _ _ _ _ _ trace01_spec) as (_ & _ & H).
+  destruct (H 1%nat TMul 2%nat 2%nat _ _ _ eq_refl) as (_ & _ & _ & _ & Hop & Hn & _).
+  exact (conj Hop Hn).
+Qed.
+(** a wrong last bit of the product is rejected by both checks *)
+Example trace01_bad :
+  let bad := Trace 4607182418800017408 4613937818241073152 (16383, 9223372036854775808) (16384, 13835058055282163712)
+               [TS TDiv 0 1 (16381, 12297829382473034411) 4599676419421066581 35;
+                TS TMul 2 2 (16379, 16397105843297379214) 4592670820000712476 90] in
+  spec_check bad = false /\ model_check bad = false.
+Proof. vm_compute. auto. Qed.
+(** the squares of f64::MAX: x^16 (about 2^16384 (1 - 2^-49)) is still finite, x^32 is +inf; of MIN_POSITIVE:
+    x^16 = 2^-16352, times 2^-60 is an f80 denormal (exponent word 0), squared again it is +0 *)
+Example run_trace_ends :
+  let mx := widen (decode64 9218868437227405311) in
+  let mn := widen (decode64 4503599627370496) in
+  let sq x := mul80 x x in
+  (is_finite_SF (sq (sq (sq (sq mx)))), sq (sq (sq (sq (sq mx)))))
+  = (true, S754_infinity false)
+  /\ fst (encode80 (mul80 (sq (sq (sq (sq mn)))) (widen (decode64 4336966441157787648)))) = 0
+  /\ sq (mul80 (sq (sq (sq (sq mn)))) (widen (decode64 4336966441157787648))) = S754_zero false.
+Proof. vm_compute. auto. Qed.
